@@ -142,6 +142,7 @@ type progRun_ struct {
 	log       []refmodel.Event
 	sentinels []string // problems found by the residue sentinels
 	nSent     int
+	rts       []*rux.Route // the registered routes in model order (nil where the harness holds no handle)
 }
 
 func execProgram(prog []refmodel.Stmt, sentinel bool) (pr *progRun_, pv any) {
@@ -210,6 +211,7 @@ func execProgram(prog []refmodel.Stmt, sentinel bool) (pr *progRun_, pv any) {
 					if len(later) > 0 {
 						rt.Use(later...)
 					}
+					pr.rts = append(pr.rts, rt)
 				case "notfound":
 					r.NotFound(mk(s.K)...)
 				case "notallowed":
@@ -221,12 +223,14 @@ func execProgram(prog []refmodel.Stmt, sentinel bool) (pr *progRun_, pv any) {
 					cp := fmt.Sprintf("%s%d", s.Prefix, cn)
 					cn++
 					r.Controller(cp, &progCtl{hs: []rux.HandlerFunc{mains[0], mains[1], rmw[0]}}, mw...)
+					pr.rts = append(pr.rts, nil, nil)
 				case "resource":
 					mw := spare(mk(s.K), s.Spare)
 					mains := mkMain(3)
 					rp := fmt.Sprintf("/q%d%s", cn, s.Prefix)
 					cn++
 					r.Resource(rp, &Widget{index: mains[0], show: mains[1], store: mains[2]}, mw...)
+					pr.rts = append(pr.rts, nil, nil, nil)
 				}
 				if top && sentinel {
 					// residue sentinel: a route registered at top level right now has no prefix and no group middleware
@@ -432,6 +436,54 @@ func progRun(c progCase, mode string, st *fw.Stats) []fw.Viol {
 						add("order:notallowed-status", fmt.Sprintf("program [%s]: default not-allowed handler should answer 405, got %d", ps, code))
 					}
 					break
+				}
+			}
+		}
+	}
+	if mode == "C04" && len(vs) == 0 && len(pr.rts) == len(m.Routes) {
+		// middleware attached AFTER requests were served: one more route middleware per route (Route.Use), then one more
+		// global middleware (Router.Use); every route is requested again after each step
+		lateOf := map[int]int{}
+		for i, rt := range m.Routes {
+			if pr.rts[i] == nil {
+				continue
+			}
+			id := m.N + 1 + i
+			lateOf[i] = id
+			if pv := try(func() { pr.rts[i].Use(mkHandler(id, progBehaviour(id), &pr.log)) }); pv != nil {
+				add("program:panic", fmt.Sprintf("program [%s]: Route.Use on route #%d after the first requests panicked: %v", ps, i, pv))
+				return vs
+			}
+			_ = rt
+		}
+		chainOf := func(i int, global []int) []int {
+			rt := m.Routes[i]
+			ch := append([]int{}, global...)
+			ch = append(ch, rt.Chain[:len(rt.Chain)-1]...)
+			if id, ok := lateOf[i]; ok {
+				ch = append(ch, id)
+			}
+			return append(ch, rt.Chain[len(rt.Chain)-1])
+		}
+		global := append([]int{}, m.Global...)
+		for step := 0; step < 2; step++ {
+			if step == 1 {
+				g := m.N + 1 + len(m.Routes)
+				global = append(global, g)
+				if pv := try(func() { r.Use(mkHandler(g, progBehaviour(g), &pr.log)) }); pv != nil {
+					add("program:panic", fmt.Sprintf("program [%s]: Router.Use after the first requests panicked: %v", ps, pv))
+					return vs
+				}
+			}
+			for i, rt := range m.Routes {
+				st.Evals++
+				want := chainEvents(chainOf(i, global))
+				got, _, pv := request(rt.Method, rt.Req)
+				if pv != nil {
+					add("request:panic", fmt.Sprintf("program [%s]: route #%d requested after late middleware was attached: panicked: %v", ps, i, pv))
+				} else if evString(got) != evString(want) {
+					add("order:late-middleware", fmt.Sprintf("program [%s]: route #%d %s %s, requested again after %s (expected chain %v): %s", ps, i, rt.Method, rt.Path,
+						[]string{"a middleware was attached to every route with Route.Use", "then a global middleware was added with Router.Use"}[step], chainOf(i, global), diffEvents(got, want)))
 				}
 			}
 		}
